@@ -13,7 +13,7 @@
 
    [cfg] selects between the pinned code and the code with the fix patches
    fix_ts_fields / fix_ts_exponent / fix_ts_round / fix_ts_textround /
-   fix_ts_parse_bounds applied.
+   fix_ts_parse_bounds / fix_ts_sign applied.
    Characters and bytes are [N]; Go ints are [Z].  No proofs in this file. *)
 From Coq Require Import List NArith ZArith Bool.
 From IonV Require Import Base.Wire Bin.Bits Num.Calendar.
@@ -26,10 +26,11 @@ Record cfg := mkCfg {
   fx_exp : bool;      (* binary: range-check the fraction exponent before ShiftL *)
   fx_bround : bool;   (* binary: integer rounding in Decimal.round *)
   fx_tround : bool;   (* text: integer rounding in roundFractionalSeconds *)
-  fx_tbounds : bool   (* text: fraction digits that run to the end of the string are an error, not a panic *)
+  fx_tbounds : bool;  (* text: fraction digits that run to the end of the string are an error, not a panic *)
+  fx_tsign : bool     (* text: the year, month and day fields are decimal digits only (no sign) *)
 }.
-Definition pinned : cfg := mkCfg false false false false false.
-Definition patched : cfg := mkCfg true true true true true.
+Definition pinned : cfg := mkCfg false false false false false false.
+Definition patched : cfg := mkCfg true true true true true true.
 
 (* ---- the Timestamp struct --------------------------------------------------------------- *)
 Inductive tzkind := KUnspec | KUTC | KLocal.
@@ -79,6 +80,8 @@ Fixpoint digits_val (l : list N) (acc : Z) : option Z :=
   | [] => Some acc
   | c :: r => if is_digit c then digits_val r (acc * 10 + dval c) else None
   end.
+Fixpoint all_digits (l : list N) : bool :=
+  match l with [] => true | c :: r => is_digit c && all_digits r end.
 Fixpoint count_digits (l : list N) : Z :=
   match l with
   | c :: r => if is_digit c then 1 + count_digits r else 0
@@ -180,6 +183,10 @@ Definition go_parse_int32 (l : list N) : option Z :=
            end
     end
   end.
+
+(* parseTimestampField (fix_ts_sign): digits only, then ParseInt; the pinned code calls ParseInt alone *)
+Definition parse_field (c : cfg) (l : list N) : option Z :=
+  if fx_tsign c && negb (all_digits l) then None else go_parse_int32 l.
 
 (* ---- time.Parse for the layouts of TimestampPrecision.Layout ---------------------------------- *)
 Definition getnum2 (l : list N) : option (Z * list N) :=       (* getnum(value, true) *)
@@ -411,20 +418,20 @@ Definition round_frac (c : cfg) (l : list N) (idx : Z) (k : tzkind) : res ts :=
 Definition ts_parse (c : cfg) (l : list N) : res ts :=
   let n := slen l in
   if n <? 5 then Err else
-  match go_parse_int32 (sub l 0 4) with
+  match parse_field c (sub l 0 4) with
   | None => Err
   | Some year =>
     if year <? 1 then Err
     else if (n =? 5) && is_tT (at_ l 4) then try_date year 1 1 PYear
     else if negb (at_ l 4 =? c_minus)%N then Err
     else if n <? 8 then Err
-    else match go_parse_int32 (sub l 5 7) with
+    else match parse_field c (sub l 5 7) with
     | None => Err
     | Some month =>
       if (n =? 8) && is_tT (at_ l 7) then try_date year month 1 PMonth
       else if negb (at_ l 7 =? c_minus)%N then Err
       else if n <? 10 then Err
-      else match go_parse_int32 (sub l 8 10) with
+      else match parse_field c (sub l 8 10) with
       | None => Err
       | Some day =>
         if (n =? 10) || ((n =? 11) && is_tT (at_ l 10)) then try_date year month day PDay
@@ -667,9 +674,6 @@ Definition lit_offset (l : list N) : bool :=
     end
   | [] => false
   end.
-
-Fixpoint all_digits (l : list N) : bool :=
-  match l with [] => true | c :: r => is_digit c && all_digits r end.
 
 (* after "hh:mm": optional ":ss" with optional ".f+", then a mandatory offset *)
 Definition lit_time_tail (l : list N) : bool :=
